@@ -149,3 +149,77 @@ Proof.
     now rewrite (read_mime_header_indep b1 b2 _ _ _ Em).
   - destruct (parse_status_line s); [discriminate|]. cbn. discriminate.
 Qed.
+
+(* ====================================================================== *)
+(* several exchanges on one connection: no cross-attribution              *)
+(* ====================================================================== *)
+
+Lemma reuse_real_empties_buffer r b : reuse_real r b = true -> b_rest b = [].
+Proof.
+  unfold reuse_real. intros H. apply andb_true_iff in H as [_ H].
+  destruct (b_rest b); [reflexivity|discriminate].
+Qed.
+
+(* every request answered from its own segment alone, on a connection with an empty buffer *)
+Fixpoint serve_independently (reqs : list (bytes * bytes)) : list (option (resp * body_result)) :=
+  match reqs with
+  | [] => []
+  | (m, seg) :: more =>
+      match exchange m [] seg with
+      | Some (r, b) => Some (r, b) :: (if reuse_real r b then serve_independently more else [])
+      | None => [None]
+      end
+  end.
+
+(* The carried state (the connection's read buffer) is EMPTY whenever readLoop's decision sends
+   the connection back to the idle pool; hence a connection that serves a whole sequence of
+   requests answers each of them exactly as a fresh connection would from that request's own
+   segment: nothing the server sent in (or behind) the answer to one request is ever used for
+   another. *)
+Theorem conn_exchanges_independent reqs :
+  conn_exchanges reuse_real [] reqs = serve_independently reqs.
+Proof.
+  induction reqs as [|[m seg] more IH]; [reflexivity|].
+  cbn [conn_exchanges serve_independently].
+  destruct (exchange m [] seg) as [[r b]|]; [|reflexivity].
+  destruct (reuse_real r b) eqn:E; [|reflexivity].
+  now rewrite (reuse_real_empties_buffer _ _ E), IH.
+Qed.
+
+(* pointwise: the answer handed to the i-th request on the connection is a function of the
+   i-th segment only *)
+Theorem answer_depends_on_own_segment_only : forall reqs i a m seg,
+  nth_error (conn_exchanges reuse_real [] reqs) i = Some a ->
+  nth_error reqs i = Some (m, seg) ->
+  a = exchange m [] seg.
+Proof.
+  intros reqs. rewrite conn_exchanges_independent.
+  induction reqs as [|[m0 seg0] more IH]; intros i a m seg Ha Hr.
+  - destruct i; discriminate.
+  - cbn [serve_independently] in Ha. destruct i as [|i].
+    + cbn in Hr. inversion Hr; subst.
+      destruct (exchange m [] seg) as [[r b]|]; cbn in Ha; inversion Ha; reflexivity.
+    + cbn [nth_error] in Hr.
+      destruct (exchange m0 [] seg0) as [[r b]|].
+      * cbn [nth_error] in Ha. destruct (reuse_real r b).
+        -- eapply IH; eauto.
+        -- destruct i; discriminate.
+      * cbn [nth_error] in Ha. destruct i; discriminate.
+Qed.
+
+(* without the buffer test in the decision (the pinned fork; also what a change dropping it from
+   the bodiless branch of readLoop gives) the bytes behind a 204 become the answer to the NEXT
+   request: it reads "STOLEN" where its own segment said "fresh" *)
+Definition splice_demo : list (bytes * bytes) :=
+  [ (bs "GET", bs "HTTP/1.1 204 No Content" ++ [CR; LF; CR; LF] ++
+               bs "HTTP/1.1 200 OK" ++ [CR; LF] ++ bs "Content-Length: 6" ++ [CR; LF; CR; LF] ++ bs "STOLEN");
+    (bs "GET", bs "HTTP/1.1 200 OK" ++ [CR; LF] ++ bs "Content-Length: 5" ++ [CR; LF; CR; LF] ++ bs "fresh") ].
+
+Theorem reuse_without_buffer_check_refuted :
+  map (option_map (fun rb => b_data (snd rb))) (conn_exchanges reuse_without_buffer_check [] splice_demo)
+    = [Some []; Some (bs "STOLEN")] /\
+  map (option_map (fun rb => b_data (snd rb))) (conn_exchanges reuse_real [] splice_demo)
+    = [Some []] /\
+  option_map (fun rb => b_data (snd rb)) (exchange (bs "GET") [] (snd (nth 1 splice_demo ([], []))))
+    = Some (bs "fresh").
+Proof. vm_compute. repeat split. Qed.
